@@ -20,6 +20,7 @@ package main
 import (
 	"encoding/json"
 	"fmt"
+	"math/big"
 	"os"
 	"sort"
 	"strings"
@@ -30,12 +31,11 @@ import (
 	"verifharness/hx"
 )
 
-
 type harness struct {
-	run     *hx.Run
-	model   *hx.Model
-	dtKnown map[string]bool
-	verbose bool
+	run      *hx.Run
+	model    *hx.Model
+	dtKnown  map[string]bool
+	verbose  bool
 	obs      map[string]*obligation
 	obOrder  []string
 	reported map[string]int
@@ -49,16 +49,21 @@ type obligation struct {
 }
 
 const (
-	obOutcome = "correspondence: outcome (validation, CoerceVariableValues, CoerceArgumentValues, arguments observed by resolver / directive filter) = model"
-	obCost    = "correspondence: arguments observed by the cost function under ValidateCost = model"
-	obUngated = "correspondence: validator.CoerceVariableValues + CoerceArgumentValues on the unvalidated document = model coerceCase"
-	obLit     = "correspondence: schema.CoerceLiteral = model coerceLit"
-	obVar     = "correspondence: schema.CoerceVariableValue = model coerceVar"
-	obSpec    = "correspondence: Go reference coercion = Lean Spec.coerce"
-	orConf    = "oracle: every observed argument map conforms to the declared types (resolver, filter, cost function)"
-	orRef     = "oracle: observed value = reference coercion of the client value, or an error and no invocation"
-	orAgree   = "oracle: all JSON-faithful spellings of one client value give the same result"
-	orSkip    = "oracle: @skip/@include run the field iff the coerced condition says so"
+	obOutcome  = "correspondence: outcome (validation, CoerceVariableValues, CoerceArgumentValues, arguments observed by resolver / directive filter) = model"
+	obCost     = "correspondence: arguments observed by the cost function under ValidateCost = model"
+	obUngated  = "correspondence: validator.CoerceVariableValues + CoerceArgumentValues on the unvalidated document = model coerceCase"
+	obLit      = "correspondence: schema.CoerceLiteral = model coerceLit"
+	obVar      = "correspondence: schema.CoerceVariableValue = model coerceVar"
+	obSpec     = "correspondence: Go reference coercion = Lean Spec.coerce"
+	orConf     = "oracle: every observed argument map conforms to the declared types (resolver, filter, cost function)"
+	orRef      = "oracle: observed value = reference coercion of the client value, or an error and no invocation"
+	orAgree    = "oracle: all JSON-faithful spellings of one client value give the same result"
+	orSkip     = "oracle: @skip/@include run the field iff the coerced condition says so"
+	orHook     = "oracle: InputCoercion hooks are invoked exactly once per hooked object, after its fields, and their result is what is observed"
+	orSound    = "oracle: a variable value of a non-JSON Go kind is refused or coerces to the reference's value"
+	obTree     = "correspondence: tree model (ApiFu/C05/Model.lean) = implementation on the cases it can express"
+	obGoKinds  = "correspondence: schema.CoerceVariableValue on Go kinds other than JSON's = model"
+	obDateTime = "correspondence: time.Time.UnmarshalText accepts a string ⇔ Rfc3339.accepts (Lean); RFC 3339 proper ⊆ accepted"
 )
 
 // ob records one evaluation of an obligation. A failure that carries the key of a known finding is
@@ -118,30 +123,51 @@ func (h *harness) registerStrings(lines []string, x hx.Sexp) []string {
 }
 
 type prepared struct {
-	g      *Group
-	cases  []Case
-	lossy  []bool
-	gap    []bool
-	direct bool // three more lines: lit, var, spec
-	varOK  bool // the value survives JSON exactly (the `var` line is meaningful)
+	g         *Group
+	cases     []Case
+	lossy     []bool
+	gap       []bool
+	sound     []bool
+	direct    bool // function-level lines: lit, var, spec (+ the tree model's, + a Go-kind re-encoding)
+	varOK     bool // the value survives JSON exactly (the `var` line is meaningful)
+	goRaw     hx.Sexp
+	goDenotes bool
+}
+
+// answers are the model's replies for one group ("" = line not sent).
+type answers struct {
+	have                       bool
+	caseR                      []string // generalised model, per spelling
+	caseTree                   []string // tree model, per spelling it can express
+	lit, vr, spec, goVar       string
+	treeLit, treeVar, treeSpec string
 }
 
 // evalGroups runs a batch of groups on both sides and reports failures.
 func (h *harness) evalGroups(groups []*Group, random int, report bool) map[*Group][]failure {
 	out := map[*Group][]failure{}
 	type slot struct {
-		p     *prepared
-		lines []int // indices of this group's model lines: cases…, then lit, var, spec
+		p        *prepared
+		caseR    []int
+		caseTree []int
+		direct   [7]int
 	}
 	var lines []string
+	add := func(l string) int {
+		if l == "" {
+			return -1
+		}
+		lines = append(lines, l)
+		return len(lines) - 1
+	}
 	slots := make([]slot, len(groups))
 	for gi, g := range groups {
 		r := h.run.Rand.Fork()
 		p := &prepared{g: g}
-		p.cases, p.lossy, p.gap = g.spellings(r, random)
+		p.cases, p.lossy, p.gap, p.sound = g.spellings(r, random)
 		// table lines first
 		for i := range p.cases {
-			for _, part := range []string{p.cases[i].ArgDefs, p.cases[i].VarDefs, p.cases[i].Args, p.cases[i].Raw} {
+			for _, part := range []string{p.cases[i].Env, p.cases[i].ArgDefs, p.cases[i].VarDefs, p.cases[i].Args, p.cases[i].Raw} {
 				if x, err := hx.ParseSexp(part); err == nil {
 					lines = h.registerStrings(lines, x)
 				}
@@ -151,28 +177,50 @@ func (h *harness) evalGroups(groups []*Group, random int, report bool) map[*Grou
 			lines = h.registerStrings(lines, *g.v)
 		}
 		s := slot{p: p}
+		for i := range s.direct {
+			s.direct[i] = -1
+		}
 		if g.Site == "poly" {
 			for i := range p.cases {
 				for _, l := range polyLines(&p.cases[i]) {
-					s.lines = append(s.lines, len(lines))
-					lines = append(lines, l)
+					s.caseR = append(s.caseR, add(l))
 				}
 			}
 			slots[gi] = s
 			continue
 		}
 		for i := range p.cases {
-			s.lines = append(s.lines, len(lines))
-			lines = append(lines, p.cases[i].modelLine())
+			s.caseR = append(s.caseR, add(p.cases[i].modelLine()))
+			tree := ""
+			if pc, err := p.cases[i].parse(); err == nil {
+				tree = p.cases[i].treeLine(pc)
+			}
+			s.caseTree = append(s.caseTree, add(tree))
+		}
+		for i := range s.direct {
+			s.direct[i] = -1
 		}
 		if g.v != nil {
 			p.direct, p.varOK = true, jsonExact(*g.v)
-			ts := g.t.Sexp().String()
-			s.lines = append(s.lines, len(lines), len(lines)+1, len(lines)+2)
-			lines = append(lines,
-				"(lit "+ts+" "+cvToLit(*g.v).String()+" ())",
-				"(var "+ts+" "+cvToJSON(*g.v).String()+")",
-				"(spec "+ts+" "+g.v.String()+")")
+			ts, env := g.t.Sexp().String(), g.Env
+			if env == "" {
+				env = "()"
+			}
+			s.direct[0] = add("(rlit " + env + " " + ts + " " + cvToLit(*g.v).String() + ")")
+			s.direct[1] = add("(rvar " + env + " " + ts + " " + cvToJSON(*g.v).String() + ")")
+			s.direct[2] = add("(rspec " + env + " " + ts + " " + g.v.String() + ")")
+			if p.varOK {
+				p.goDenotes = true
+				p.goRaw = goKindOf(r, *g.v, &p.goDenotes)
+				lines = h.registerStrings(lines, p.goRaw)
+				s.direct[3] = add("(rvar " + env + " " + ts + " " + p.goRaw.String() + ")")
+			}
+			if treeExpressible(g.t, map[string]bool{}) {
+				tt := g.t.TreeSexp().String()
+				s.direct[4] = add("(lit " + tt + " " + cvToLit(*g.v).String() + " ())")
+				s.direct[5] = add("(var " + tt + " " + cvToJSON(*g.v).String() + ")")
+				s.direct[6] = add("(spec " + tt + " " + g.v.String() + ")")
+			}
 		}
 		slots[gi] = s
 	}
@@ -185,20 +233,37 @@ func (h *harness) evalGroups(groups []*Group, random int, report bool) map[*Grou
 			os.Exit(2)
 		}
 	}
+	get := func(i int) string {
+		if replies == nil || i < 0 {
+			return ""
+		}
+		return replies[i]
+	}
 	for gi, g := range groups {
 		s := slots[gi]
-		var rs []string
-		if replies != nil {
-			for _, li := range s.lines {
-				rs = append(rs, replies[li])
-			}
-		}
-		var fs []failure
+		an := &answers{have: replies != nil}
 		if g.Site == "poly" {
-			fs = h.judgePoly(s.p, rs)
-		} else {
-			fs = h.judge(s.p, rs)
+			var rs []string
+			if replies != nil {
+				for _, li := range s.caseR {
+					rs = append(rs, get(li))
+				}
+			}
+			if fs := h.judgePoly(s.p, rs); len(fs) > 0 {
+				out[g] = fs
+				if report {
+					h.report(g, s.p, fs)
+				}
+			}
+			continue
 		}
+		for i := range s.caseR {
+			an.caseR = append(an.caseR, get(s.caseR[i]))
+			an.caseTree = append(an.caseTree, get(s.caseTree[i]))
+		}
+		an.lit, an.vr, an.spec, an.goVar = get(s.direct[0]), get(s.direct[1]), get(s.direct[2]), get(s.direct[3])
+		an.treeLit, an.treeVar, an.treeSpec = get(s.direct[4]), get(s.direct[5]), get(s.direct[6])
+		fs := h.judge(s.p, an)
 		if len(fs) > 0 {
 			out[g] = fs
 			if report {
@@ -209,12 +274,14 @@ func (h *harness) evalGroups(groups []*Group, random int, report bool) map[*Grou
 	return out
 }
 
-func splitRes(reply string) (o1, o2, o3 string, ok bool) {
+// splitRes reads `(res o1 o3)` (generalised model) or `(res o1 o2 o3)` (tree model): the outcome
+// and the coercion without the validation gate.
+func splitRes(reply string) (o1, o3 string, ok bool) {
 	x, err := hx.ParseSexp(reply)
-	if err != nil || !x.IsList || len(x.List) != 4 || x.List[0].Atom != "res" {
-		return "", "", "", false
+	if err != nil || !x.IsList || len(x.List) < 3 || x.List[0].Atom != "res" {
+		return "", "", false
 	}
-	return x.List[1].String(), x.List[2].String(), x.List[3].String(), true
+	return x.List[1].String(), x.List[len(x.List)-1].String(), true
 }
 
 // focus extracts the focus argument from an `(ok (name goval)…)` dump.
@@ -261,7 +328,7 @@ func conformsArgs(p *pcase, args string) (bool, string) {
 }
 
 // judge evaluates one group: rs are the model's replies (cases…, lit, var, spec) or nil.
-func (h *harness) judge(p *prepared, rs []string) []failure {
+func (h *harness) judge(p *prepared, an *answers) []failure {
 	g := p.g
 	var fs []failure
 	refVal, refPresent, refOK := refArg(g.t, g.dflt, g.v)
@@ -299,8 +366,11 @@ func (h *harness) judge(p *prepared, rs []string) []failure {
 		}
 		if h.verbose {
 			fmt.Printf("--- %s\n    query:     %s\n    variables: %s\n    implementation: %s\n", c.Label, query, variables, o.String())
-			if rs != nil {
-				fmt.Printf("    model:          %s\n", rs[i])
+			if an.have {
+				fmt.Printf("    model:          %s\n", an.caseR[i])
+				if an.caseTree[i] != "" {
+					fmt.Printf("    tree model:     %s\n", an.caseTree[i])
+				}
 			}
 			fmt.Printf("    reference:      %s\n", refStr)
 		}
@@ -362,6 +432,28 @@ func (h *harness) judge(p *prepared, rs []string) []failure {
 		if o.Class == "fielderr" && g.Site != "field" && o.GRan {
 			bad(orSkip, "the directive's arguments do not coerce but the selection was executed")
 		}
+		// hooks: called exactly once per object of a hooked type the observer received
+		if o.Class == "ok" && g.Site != "skip" && g.Site != "include" {
+			want := strings.Count(o.Args, "$hook")
+			if o.HookCalls != want {
+				bad(orHook, fmt.Sprintf("%d hooked objects observed but the hooks were invoked %d times", want, o.HookCalls))
+			} else if want > 0 {
+				h.ob(orHook, "oracle", true, "")
+			}
+		}
+		// Go kinds: a re-encoding that still denotes the client value is either refused or coerces to
+		// the reference's value
+		if p.sound[i] && o.Class == "ok" {
+			res := "absent"
+			if v, present := focus(o.Args, g.argName()); present {
+				res = v
+			}
+			if res != canon(refStr) {
+				bad(orSound, fmt.Sprintf("a Go-kind encoding of the client value was accepted as %s, the reference says %s", res, refStr))
+			} else {
+				h.ob(orSound, "oracle", true, "")
+			}
+		}
 		// (4) the reference, (5) agreement
 		exempt := p.lossy[i]
 		if !exempt {
@@ -387,16 +479,13 @@ func (h *harness) judge(p *prepared, rs []string) []failure {
 				groupKnown = true
 			}
 		}
-		// ---- correspondence with the model
+		// ---- correspondence with the model(s)
 		tie := ""
-		if rs != nil {
-			o1, o2, o3, ok := splitRes(rs[i])
+		if an.have {
+			o1, o3, ok := splitRes(an.caseR[i])
 			if !ok {
-				tie = "unexpected model reply " + rs[i]
+				tie = "unexpected model reply " + an.caseR[i]
 			} else {
-				if o1 != o2 {
-					h.run.Count("object-literal-with-variable-in-list-position(F-04d repaired)")
-				}
 				if implOutcome != o1 {
 					tie = fmt.Sprintf("outcome: implementation %s, model %s", implOutcome, o1)
 				}
@@ -422,6 +511,22 @@ func (h *harness) judge(p *prepared, rs []string) []failure {
 						tie = strings.TrimSpace(tie + " " + costTie)
 					}
 				}
+			}
+			// the tree model (the one nested_variable and static_agrees are proved about) on the cases it
+			// can express
+			if an.caseTree[i] != "" {
+				t1, t3, ok := splitRes(an.caseTree[i])
+				treeTie := ""
+				if !ok {
+					treeTie = "unexpected tree-model reply " + an.caseTree[i]
+				} else if implOutcome != t1 || canon(o.Ungated) != t3 {
+					treeTie = fmt.Sprintf("tree model: implementation %s (ungated %s), model %s (ungated %s)", implOutcome, o.Ungated, t1, t3)
+				}
+				h.ob(obTree, "correspondence", treeTie == "", treeTie+" | "+query+" "+variables)
+				if treeTie != "" {
+					tie = strings.TrimSpace(tie + " " + treeTie)
+				}
+				h.run.Count("tree-model-expressible")
 			}
 		}
 		oracle = dedupe(oracle)
@@ -463,7 +568,7 @@ func (h *harness) judge(p *prepared, rs []string) []failure {
 	}
 	// ---- function-level ties
 	if p.direct {
-		fs = append(fs, h.judgeDirect(p, rs)...)
+		fs = append(fs, h.judgeDirect(p, an)...)
 	}
 	return fs
 }
@@ -488,21 +593,35 @@ func resOf(v interface{}, err error) string {
 }
 
 // judgeDirect: schema.CoerceLiteral / schema.CoerceVariableValue on the whole client value.
-func (h *harness) judgeDirect(p *prepared, rs []string) (fs []failure) {
+func (h *harness) judgeDirect(p *prepared, an *answers) (fs []failure) {
 	g := p.g
 	v := *g.v
-	reg := &registry{enums: map[string]*schema.EnumType{}, inputs: map[string]*schema.InputObjectType{}}
+	reg := newRegistry()
 	gt := reg.gql(g.t)
 	ref := "err"
 	if c, ok := refCoerce(g.t, v); ok {
 		ref = hx.N("ok", c).String()
 	}
-	n := len(p.cases)
 	defer func() {
 		if r := recover(); r != nil {
 			fs = append(fs, failure{"crash", fmt.Sprintf("direct coercion of %s at %s panics: %v", v.String(), g.t.GraphQL(), r), "", false, -1})
 		}
 	}()
+	check := func(ob, label, impl string, replies ...string) {
+		if !an.have {
+			return
+		}
+		what := ""
+		for _, r := range replies {
+			if r != "" && canon(r) != impl {
+				what = fmt.Sprintf("%s = %s, model %s", label, impl, r)
+			}
+		}
+		if what != "" {
+			fs = append(fs, failure{"correspondence", what, "", true, -1})
+		}
+		h.ob(ob, "correspondence", what == "", what)
+	}
 	// literal route
 	text := litText(cvToLit(v))
 	node, perrs := parser.ParseValue([]byte(text))
@@ -514,13 +633,8 @@ func (h *harness) judgeDirect(p *prepared, rs []string) (fs []failure) {
 		what := fmt.Sprintf("CoerceLiteral(%s, %s) = %s, reference %s", text, g.t.GraphQL(), lit, ref)
 		h.ob(orRef, "oracle", false, what)
 		fs = append(fs, failure{"property", what, "", false, -1})
-	} else if rs != nil {
-		what := ""
-		if canon(rs[n]) != lit {
-			what = fmt.Sprintf("CoerceLiteral(%s, %s) = %s, model %s", text, g.t.GraphQL(), lit, rs[n])
-			fs = append(fs, failure{"correspondence", what, "", true, -1})
-		}
-		h.ob(obLit, "correspondence", what == "", what)
+	} else {
+		check(obLit, fmt.Sprintf("CoerceLiteral(%s, %s)", text, g.t.GraphQL()), lit, an.lit, an.treeLit)
 	}
 	// variable route
 	if p.varOK {
@@ -534,13 +648,8 @@ func (h *harness) judgeDirect(p *prepared, rs []string) (fs []failure) {
 			what := fmt.Sprintf("CoerceVariableValue(%s, %s) = %s, reference (and literal route) %s", jt, g.t.GraphQL(), vr, ref)
 			h.ob(orRef, "oracle", false, what)
 			fs = append(fs, failure{"property", what, "", false, -1})
-		} else if rs != nil {
-			what := ""
-			if canon(rs[n+1]) != vr {
-				what = fmt.Sprintf("CoerceVariableValue(%s, %s) = %s, model %s", jt, g.t.GraphQL(), vr, rs[n+1])
-				fs = append(fs, failure{"correspondence", what, "", true, -1})
-			}
-			h.ob(obVar, "correspondence", what == "", what)
+		} else {
+			check(obVar, fmt.Sprintf("CoerceVariableValue(%s, %s)", jt, g.t.GraphQL()), vr, an.vr, an.treeVar)
 		}
 		if vr != "err" {
 			if x, err := hx.ParseSexp(vr); err == nil && !conformsGo(g.t, x.List[1]) {
@@ -549,17 +658,33 @@ func (h *harness) judgeDirect(p *prepared, rs []string) (fs []failure) {
 				fs = append(fs, failure{"property", what, "", false, -1})
 			}
 		}
-	}
-	// Lean specification against the Go reference
-	if rs != nil {
-		what := ""
-		if canon(rs[n+2]) != ref {
-			what = fmt.Sprintf("Spec.coerce(%s, %s) = %s, Go reference %s", g.t.GraphQL(), v.String(), rs[n+2], ref)
-			fs = append(fs, failure{"correspondence", what, "", true, -1})
+		// the same value in other Go kinds
+		if p.goRaw.IsList || p.goRaw.Atom != "" {
+			label := fmt.Sprintf("CoerceVariableValue(%s, %s)", rawText(p.goRaw), g.t.GraphQL())
+			gv := resOf(schema.CoerceVariableValue(goIn(p.goRaw), gt))
+			h.run.Count("go-kind-direct:" + map[bool]string{true: "accepted", false: "refused"}[gv != "err"])
+			switch {
+			case gv != "err" && !conformsOK(g.t, gv):
+				what := label + " = " + gv + " does not conform"
+				h.ob(orConf, "oracle", false, what)
+				fs = append(fs, failure{"property", what, "", false, -1})
+			case gv != "err" && p.goDenotes && faithful(g.t, v) && gv != ref:
+				what := label + " = " + gv + ", but the value it denotes coerces to " + ref
+				h.ob(orSound, "oracle", false, what)
+				fs = append(fs, failure{"property", what, "", false, -1})
+			default:
+				check(obGoKinds, label, gv, an.goVar)
+			}
 		}
-		h.ob(obSpec, "correspondence", what == "", what)
 	}
+	// Lean specifications against the Go reference
+	check(obSpec, fmt.Sprintf("Go reference coercion(%s, %s)", g.t.GraphQL(), v.String()), ref, an.spec, an.treeSpec)
 	return fs
+}
+
+func conformsOK(t *Ty, res string) bool {
+	x, err := hx.ParseSexp(res)
+	return err == nil && x.IsList && len(x.List) == 2 && conformsGo(t, x.List[1])
 }
 
 // ---- reporting and shrinking ---------------------------------------------------------------------
@@ -664,11 +789,12 @@ func (h *harness) report(g *Group, p *prepared, fs []failure) {
 			if curF.idx != 0 {
 				keep = append(keep, curF.idx)
 			}
-			replay.Cases, replay.Lossy, replay.Gap = nil, nil, nil
+			replay.Cases, replay.Lossy, replay.Gap, replay.Sound = nil, nil, nil, nil
 			for _, i := range keep {
 				replay.Cases = append(replay.Cases, curP.cases[i])
 				replay.Lossy = append(replay.Lossy, curP.lossy[i])
 				replay.Gap = append(replay.Gap, curP.gap[i])
+				replay.Sound = append(replay.Sound, curP.sound[i])
 			}
 		}
 		h.run.Violate(curF.kind, curF.what, curF.key, curF.noInput, replay)
@@ -768,8 +894,14 @@ func (h *harness) randomComposite(n int, maxDepth int) {
 	var groups []*Group
 	for i := 0; i < n; i++ {
 		r := run.Rand.Fork()
-		tg := &typeGen{r: r}
-		t := tg.gen(r.Range(1, maxDepth))
+		tg := &typeGen{r: r, rich: r.Bool()}
+		t := tg.top(r.Range(1, maxDepth))
+		if tg.rich {
+			run.Count("type:rich(recursive types, hooks, custom scalars allowed)")
+			if !treeExpressible(t, map[string]bool{}) {
+				run.Count("type:not-tree-expressible")
+			}
+		}
 		var dflt *hx.Sexp
 		if r.Chance(1, 3) {
 			dflt = tg.dflt(t)
@@ -784,13 +916,13 @@ func (h *harness) randomComposite(n int, maxDepth int) {
 			if r.Chance(1, 2) {
 				vg.junk = r.Range(3, 15)
 			}
-			x := vg.valid(t, false, false)
+			x := vg.valid(t, false, false, 3)
 			v = &x
 		}
 		g := newGroup(site, t, dflt, v, r.Chance(1, 5))
 		groups = append(groups, g)
 		if i < 4 {
-			run.Sample(map[string]string{"site": g.Site, "type": t.GraphQL(), "type_sexp": g.T, "default": g.Dflt, "value": g.V})
+			run.Sample(map[string]string{"site": g.Site, "type": t.GraphQL(), "env": g.Env, "type_sexp": g.T, "default": g.Dflt, "value": g.V})
 		}
 		if len(groups) >= 300 {
 			h.evalGroups(groups, 4, true)
@@ -806,12 +938,12 @@ func (h *harness) polymorphic(n int) {
 	var groups []*Group
 	for i := 0; i < n; i++ {
 		r := run.Rand.Fork()
-		tg := &typeGen{r: r}
+		tg := &typeGen{r: r, rich: r.Chance(1, 3)}
 		var t *Ty
 		if r.Chance(1, 3) {
 			t = hx.Pick(r, wrapForms(scalarTy(hx.Pick(r, scalarNames))))
 		} else {
-			t = tg.gen(r.Range(0, 3))
+			t = tg.top(r.Range(0, 3))
 		}
 		dflt := func() *hx.Sexp {
 			if r.Chance(1, 3) {
@@ -825,7 +957,7 @@ func (h *harness) polymorphic(n int) {
 			if r.Chance(1, 3) {
 				vg.junk = r.Range(3, 15)
 			}
-			x := vg.valid(t, false, false)
+			x := vg.valid(t, false, false, 3)
 			v = &x
 		}
 		groups = append(groups, newPolyGroup(t, dflt(), dflt(), dflt(), v, hx.Pick(r, []string{"interface-list", "union-fragment"})))
@@ -835,6 +967,248 @@ func (h *harness) polymorphic(n int) {
 		}
 	}
 	h.evalGroups(groups, 2, true)
+}
+
+// exhaustiveGoKinds: every scalar (and the custom scalars, an enum) × every Go kind a caller can
+// hand over × the boundary values of that kind, through schema.CoerceVariableValue: no panic, the
+// model's verdict, conformance of what is accepted, and — where the Go value denotes a client
+// value — the reference's result.
+func (h *harness) exhaustiveGoKinds() {
+	type probe struct {
+		raw     hx.Sexp
+		denotes *hx.Sexp // the client value the Go value stands for (nil: none)
+	}
+	var probes []probe
+	ints := []*big.Int{big.NewInt(0), big.NewInt(1), big.NewInt(-1), big.NewInt(2), big.NewInt(13), big.NewInt(127), big.NewInt(128),
+		big.NewInt(-128), big.NewInt(255), big.NewInt(65535), big.NewInt(-32768),
+		plus(pow2(31), -1), pow2(31), neg(pow2(31)), plus(neg(pow2(31)), -1), plus(pow2(32), -1),
+		plus(pow2(53), -1), pow2(53), neg(plus(pow2(53), -1)), neg(pow2(53)), pow2(62),
+		plus(pow2(63), -1), pow2(63), neg(pow2(63)), plus(pow2(64), -1), plus(pow2(64), -2)}
+	for _, k := range intKinds {
+		for _, z := range ints {
+			if within(z, k.lo, k.hi) {
+				cv := cvInt(z)
+				probes = append(probes, probe{hx.N("intk", hx.A(k.name), bigA(z)), &cv})
+			}
+		}
+	}
+	for _, hh := range []int64{0, 2, 3, -1, 26, 1 << 25, -(1 << 25), 1 << 32, 4000} {
+		cv := cvHalf(hh)
+		if hh%2 == 0 {
+			cv = cvIntS(fmt.Sprint(hh / 2)) // an integral float32 stands for the integer (as float64 does in JSON)
+		}
+		probes = append(probes, probe{hx.N("f32", hx.I(hh)), &cv})
+	}
+	for _, t := range []string{"nan", "pinf", "ninf", "nan32"} {
+		probes = append(probes, probe{hx.N("nonfinite", hx.A(t)), nil})
+	}
+	for _, sx := range strPool {
+		str := sx.List[1].Atom
+		probes = append(probes, probe{hx.N("bytes", hx.A(str)), nil}, probe{hx.N("jsonnumber", hx.A(str)), nil})
+	}
+	probes = append(probes, probe{hx.N("jsonnumber", hx.A("2")), nil}, probe{hx.N("jsonnumber", hx.A("1.5")), nil})
+	for _, t := range otherTags {
+		probes = append(probes, probe{hx.N("other", hx.A(t)), nil})
+	}
+	types := []*Ty{}
+	for _, n := range scalarNames {
+		types = append(types, scalarTy(n))
+	}
+	types = append(types, customTy("Even"), customTy("Tag"), colorTy)
+	var lines []string
+	type item struct {
+		t      *Ty
+		p      probe
+		inList bool
+	}
+	var items []item
+	for _, base := range types {
+		for _, wrapped := range []bool{false, true} {
+			t := base
+			if wrapped {
+				t = listTy(nnTy(base))
+			}
+			for _, p := range probes {
+				// Float from an integer kind is float64(v): only values that conversion keeps exactly
+				if base.Name == "Float" && tag(p.raw) == "intk" && !exactFloat(bigOf(p.raw.List[2])) {
+					continue
+				}
+				raw := p.raw
+				if wrapped {
+					raw = hx.N("list", p.raw, p.raw)
+				}
+				lines = h.registerStrings(lines, raw)
+				items = append(items, item{t, probe{raw, p.denotes}, wrapped})
+				lines = append(lines, "(rvar () "+t.Sexp().String()+" "+raw.String()+")")
+			}
+		}
+	}
+	var replies []string
+	if h.model != nil {
+		var err error
+		if replies, err = h.model.AskAll(lines); err != nil {
+			fmt.Fprintln(os.Stderr, "model driver failed:", err)
+			os.Exit(2)
+		}
+	}
+	li := 0
+	for _, it := range items {
+		for li < len(lines) && !strings.HasPrefix(lines[li], "(rvar") {
+			li++
+		}
+		reply := ""
+		if replies != nil {
+			reply = replies[li]
+		}
+		li++
+		label := fmt.Sprintf("CoerceVariableValue(%s, %s)", rawText(it.p.raw), it.t.GraphQL())
+		got := func() (res string) {
+			defer func() {
+				if r := recover(); r != nil {
+					res = fmt.Sprintf("panic: %v", r)
+				}
+			}()
+			return resOf(schema.CoerceVariableValue(goIn(it.p.raw), newRegistry().gql(it.t)))
+		}()
+		h.run.Case("gokind|"+it.t.Sexp().String()+"|"+it.p.raw.String(), true)
+		h.run.Count("go-kind-exhaustive:" + map[bool]string{true: "accepted", false: "refused"}[strings.HasPrefix(got, "(ok")])
+		g := newGroup("field", it.t, nil, nil, false)
+		fail := func(kind, what string) {
+			h.run.Violate(kind, what, "", kind == "correspondence", map[string]string{"site": "gokind", "type": g.T, "raw": it.p.raw.String()})
+		}
+		switch {
+		case strings.HasPrefix(got, "panic"):
+			h.ob(orConf, "oracle", false, label+" "+got)
+			fail("crash", label+" "+got)
+			continue
+		case got != "err" && !conformsOK(it.t, got):
+			h.ob(orConf, "oracle", false, label+" = "+got+" does not conform")
+			fail("property", label+" = "+got+" does not conform")
+			continue
+		}
+		if got != "err" && it.p.denotes != nil {
+			cv := *it.p.denotes
+			if it.inList {
+				cv = cvList(cv, cv)
+			}
+			if faithful(it.t, cv) {
+				ref := "err"
+				if c, ok := refCoerce(it.t, cv); ok {
+					ref = hx.N("ok", c).String()
+				}
+				if got != ref {
+					what := label + " = " + got + ", but the value it denotes coerces to " + ref
+					h.ob(orSound, "oracle", false, what)
+					fail("property", what)
+					continue
+				}
+				h.ob(orSound, "oracle", true, "")
+			}
+		}
+		if replies != nil {
+			what := ""
+			if canon(reply) != got {
+				what = label + " = " + got + ", model " + reply
+				fail("correspondence", what)
+			}
+			h.ob(obGoKinds, "correspondence", what == "", what)
+		}
+	}
+}
+
+// dateTimeShapes: Go's verdict on mutated timestamps against the decidable predicate in
+// lean/ApiFu/C05/Rfc3339.lean (`accepts`), and RFC 3339 proper (`strict`) ⊆ accepted.
+func (h *harness) dateTimeShapes(n int) {
+	if h.model == nil {
+		return
+	}
+	r := h.run.Rand.Fork()
+	bases := []string{"2020-01-02T03:04:05Z", "2020-02-29T23:59:59.123456789+02:00", "1999-12-31T00:00:00-07:30",
+		"2000-02-29T12:00:00.5Z", "1900-02-28T01:02:03+00:00", "0000-01-01T00:00:00Z", "9999-12-31T23:59:59.999999999-23:59",
+		"2024-04-30T3:04:05Z", "2023-11-30T03:04:05,75+24:00", "2023-06-15T10:20:30+10:60"}
+	alphabet := []byte("0123456789-:TZ+.,tz /")
+	var probes []string
+	seen := map[string]bool{}
+	addProbe := func(s string) {
+		if !seen[s] && !strings.ContainsAny(s, "\n\r") {
+			seen[s] = true
+			probes = append(probes, s)
+		}
+	}
+	for _, b := range bases {
+		addProbe(b)
+	}
+	for _, sx := range strPool {
+		addProbe(sx.List[1].Atom)
+	}
+	// every day-of-month boundary
+	for _, y := range []int{1900, 2000, 2023, 2024} {
+		for m := 1; m <= 12; m++ {
+			for _, d := range []int{0, 28, 29, 30, 31, 32} {
+				addProbe(fmt.Sprintf("%04d-%02d-%02dT00:00:00Z", y, m, d))
+			}
+		}
+	}
+	for _, hh := range []string{"0", "9", "00", "23", "24", "123"} {
+		addProbe("2020-01-02T" + hh + ":04:05Z")
+	}
+	for _, z := range []string{"Z", "z", "+00:00", "-23:59", "+24:00", "+24:60", "+25:00", "+00:61", "+0000", "+00", "", "ZZ", "+1:00"} {
+		addProbe("2020-01-02T03:04:05" + z)
+		addProbe("2020-01-02T03:04:05.5" + z)
+	}
+	for len(probes) < n {
+		b := []byte(hx.Pick(r, bases))
+		for k := r.Range(1, 2); k > 0; k-- {
+			i := r.Intn(len(b))
+			switch r.Intn(4) {
+			case 0:
+				b[i] = hx.Pick(r, alphabet)
+			case 1:
+				b = append(b[:i], b[i+1:]...)
+			case 2:
+				b = append(b[:i], append([]byte{hx.Pick(r, alphabet)}, b[i:]...)...)
+			default:
+				if b[i] >= '0' && b[i] <= '9' {
+					b[i] = '0' + byte(r.Intn(10))
+				}
+			}
+			if len(b) == 0 {
+				break
+			}
+		}
+		addProbe(string(b))
+	}
+	lines := make([]string, len(probes))
+	for i, s := range probes {
+		lines[i] = hx.N("dtshape", hx.A(s)).String()
+	}
+	replies, err := h.model.AskAll(lines)
+	if err != nil {
+		fmt.Fprintln(os.Stderr, "model driver failed:", err)
+		os.Exit(2)
+	}
+	for i, s := range probes {
+		_, goOK := parseDateTime(s)
+		x, perr := hx.ParseSexp(replies[i])
+		what := ""
+		if perr != nil || !x.IsList || len(x.List) != 3 {
+			what = "unexpected model reply " + replies[i]
+		} else {
+			accepts, strict := x.List[1].Atom == "true", x.List[2].Atom == "true"
+			switch {
+			case accepts != goOK:
+				what = fmt.Sprintf("time.Time.UnmarshalText(%q) accepted = %v, Rfc3339.accepts = %v", s, goOK, accepts)
+			case strict && !goOK:
+				what = fmt.Sprintf("%q is RFC 3339 proper but UnmarshalText refuses it", s)
+			}
+			h.run.Count(fmt.Sprintf("datetime-shape:go=%v,rfc3339=%v", goOK, strict))
+		}
+		h.run.Case("dtshape|"+s, true)
+		h.ob(obDateTime, "correspondence", what == "", what)
+		if what != "" {
+			h.run.Violate("correspondence", what, "", true, map[string]string{"site": "dtshape", "text": s})
+		}
+	}
 }
 
 func loadGroup(path string) (*Group, error) {
@@ -863,6 +1237,56 @@ func main() {
 	run.SetRule("groups (argument type T with optional declared default) × (abstract client value or omission) × spellings {literal, $variable (same / non-null / nullable-with-default type), variable default unset, unset variable, variables nested at every leaf / child of the literal, unset variables for null items and omitted fields, random mixtures} × sites {field argument, directive argument, @skip/@include}; a case is one spelling executed through ParseAndValidate+Execute (+ValidateCost); distinct = distinct (argument definitions, variable definitions, written arguments, JSON variables, site); non-trivial = the spelling uses at least one variable or omits the argument (i.e. anything but a plain literal)")
 
 	if run.Replay != "" {
+		var probe struct {
+			Site, Type, Raw, Text string
+		}
+		if hx.LoadReplayCase(run.Replay, &probe) == nil && (probe.Site == "gokind" || probe.Site == "dtshape") {
+			h.verbose = true
+			if probe.Site == "dtshape" {
+				_, goOK := parseDateTime(probe.Text)
+				fmt.Printf("replay: time.Time.UnmarshalText(%q) accepted = %v\n", probe.Text, goOK)
+				if h.model != nil {
+					rep, _ := h.model.Ask(hx.N("dtshape", hx.A(probe.Text)).String())
+					fmt.Printf("replay: model %s\n", rep)
+					if want := fmt.Sprintf("(shape %v ", goOK); !strings.HasPrefix(rep, want) {
+						run.Violate("correspondence", "UnmarshalText and Rfc3339.accepts disagree on "+probe.Text, "", true, probe)
+					}
+				}
+			} else {
+				tx, _ := hx.ParseSexp(probe.Type)
+				t, err := parseTy(tx, map[string]*InputDef{})
+				rx, err2 := hx.ParseSexp(probe.Raw)
+				if err != nil || err2 != nil {
+					fmt.Fprintln(os.Stderr, "unreadable replay", err, err2)
+					os.Exit(2)
+				}
+				got := func() (res string) {
+					defer func() {
+						if r := recover(); r != nil {
+							res = fmt.Sprintf("panic: %v", r)
+						}
+					}()
+					return resOf(schema.CoerceVariableValue(goIn(rx), newRegistry().gql(t)))
+				}()
+				fmt.Printf("replay: CoerceVariableValue(%s, %s) = %s\n", rawText(rx), t.GraphQL(), got)
+				if h.model != nil {
+					var lines []string
+					lines = h.registerStrings(lines, rx)
+					lines = append(lines, "(rvar () "+t.Sexp().String()+" "+rx.String()+")")
+					reps, _ := h.model.AskAll(lines)
+					rep := reps[len(reps)-1]
+					fmt.Printf("replay: model %s\n", rep)
+					if canon(rep) != got {
+						run.Violate("correspondence", "implementation "+got+", model "+rep, "", true, probe)
+					}
+				}
+				if got != "err" && !conformsOK(t, got) {
+					run.Violate("property", got+" does not conform to "+t.GraphQL(), "", false, probe)
+				}
+			}
+			h.finish()
+			return
+		}
 		g, err := loadGroup(run.Replay)
 		if err != nil {
 			fmt.Fprintln(os.Stderr, err)
@@ -891,6 +1315,8 @@ func main() {
 		run.Count("corpus")
 	}
 	h.exhaustive()
+	h.exhaustiveGoKinds()
+	h.dateTimeShapes(run.Scale(3000, 60000))
 	run.Note("exhaustive part: 7 scalars + 2 enums × wrapper forms × every boundary value (in 2–5 list shapes) × the deterministic spellings; @skip/@include × 8 values")
 	h.randomComposite(run.Scale(4000, 150000), run.Scale(4, 6))
 	h.polymorphic(run.Scale(700, 20000))
